@@ -108,6 +108,7 @@ MUTANTS = {
     "C03": [
         ("patch:own-c03-archive-ignores-user-structure",),
         ("patch:own-c03-vcf-hardwired-structure",),
+        ("patch:own-c03-support-filter-drops-partial-deletions",),
         ("diplo-lower-bound-dropped", "aldy/cn.py", '    model.addConstr(diplo_inducing >= 2, name="CDIPLO")', '    model.addConstr(diplo_inducing >= 0, name="CDIPLO")'),
         ("fusion-penalty-dropped", "aldy/cn.py", "            penalty[n] += PARSIMONY_PENALTY * profile.cn_fusion_left", "            penalty[n] += 0"),
         ("gene-fit-term-dropped", "aldy/cn.py", "    model.setObjective(o_diff + o_fit + o_pars)", "    model.setObjective(o_diff + o_pars)"),
